@@ -1224,3 +1224,71 @@ func SelectCases(sel *ssa.Select) []SelectCase {
 
 // FieldNameOf names the field a FieldAddr selects.
 func FieldNameOf(fa *ssa.FieldAddr) string { return fieldName(fa.X.Type(), fa.Field) }
+
+// PathQuery is a general "exists path" question on one function's CFG.
+// From == nil starts at the function entry; otherwise after From. Cut edges
+// are never traversed; a Barrier instruction ends the path it lies on.
+type PathQuery struct {
+	Fn      *ssa.Function
+	From    ssa.Instruction
+	Cut     map[[2]*ssa.BasicBlock]bool
+	Barrier func(ssa.Instruction) bool
+}
+
+// Reaches reports whether some path of the query reaches instruction to.
+func (q PathQuery) Reaches(to ssa.Instruction) bool {
+	seen := map[*ssa.BasicBlock]bool{}
+	var walk func(blk *ssa.BasicBlock, from int) bool
+	walk = func(blk *ssa.BasicBlock, from int) bool {
+		for k := from; k < len(blk.Instrs); k++ {
+			in := blk.Instrs[k]
+			if in == to {
+				return true
+			}
+			if q.Barrier != nil && q.Barrier(in) {
+				return false
+			}
+		}
+		for _, s := range blk.Succs {
+			if seen[s] || q.Cut[[2]*ssa.BasicBlock{blk, s}] {
+				continue
+			}
+			seen[s] = true
+			if walk(s, 0) {
+				return true
+			}
+		}
+		return false
+	}
+	if q.From == nil {
+		if len(q.Fn.Blocks) == 0 {
+			return false
+		}
+		seen[q.Fn.Blocks[0]] = true
+		return walk(q.Fn.Blocks[0], 0)
+	}
+	return walk(q.From.Block(), indexOf(q.From)+1)
+}
+
+// EdgesWhere returns the conditional edges of fn on which the comparison
+// decoded from the branch condition satisfies match (tried in both operand
+// orders). The result is usable as PathQuery.Cut.
+func EdgesWhere(fn *ssa.Function, match func(Cmp) bool) map[[2]*ssa.BasicBlock]bool {
+	out := map[[2]*ssa.BasicBlock]bool{}
+	for _, b := range fn.Blocks {
+		if len(b.Instrs) == 0 {
+			continue
+		}
+		iff, ok := b.Instrs[len(b.Instrs)-1].(*ssa.If)
+		if !ok || len(b.Succs) != 2 || b.Succs[0] == b.Succs[1] {
+			continue
+		}
+		for k := 0; k < 2; k++ {
+			c := Guard{If: iff, Branch: k == 0}.Cmp()
+			if match(c) || match(c.Swap()) {
+				out[[2]*ssa.BasicBlock{b, b.Succs[k]}] = true
+			}
+		}
+	}
+	return out
+}
